@@ -1,4 +1,5 @@
 import Sgz.Proofs.Reader
+import Sgz.Proofs.Coords
 /-!
 # C14 — bounds safety
 
@@ -149,5 +150,16 @@ example : (Reader.readInline gEx 5 matches .error .index) = true := by decide
 example : (Reader.getTrace gEx 3 6 9 matches .error .index) = true := by decide
 example : (Reader.getTrace gEx 3 2 2 matches .error .index) = true := by decide
 example : (Reader.readSubvolume gEx false 0 5 0 6 7 8 matches .error .index) = true := by decide
+
+/-- a line number that is not on the axis is refused with IndexError (never resolved to a neighbouring line) -/
+theorem inline_number_absent_refused (g : Geo) (hg : g.Valid) (il0 dil c : Int)
+    (h : ∀ k : Nat, k < g.n0 → c ≠ il0 + dil * (k : Int)) : Coords.readInlineNumber g il0 dil c = .error .index := by
+  unfold Coords.readInlineNumber
+  rw [not2d_of_valid g hg, Coords.coordToIndex_absent il0 dil g.n0 c h]; rfl
+
+theorem crossline_number_absent_refused (g : Geo) (hg : g.Valid) (xl0 dxl c : Int)
+    (h : ∀ k : Nat, k < g.n1 → c ≠ xl0 + dxl * (k : Int)) : Coords.readCrosslineNumber g xl0 dxl c = .error .index := by
+  unfold Coords.readCrosslineNumber
+  rw [not2d_of_valid g hg, Coords.coordToIndex_absent xl0 dxl g.n1 c h]; rfl
 
 end Sgz.Props.C14
